@@ -292,6 +292,14 @@ _jpeg_crop_scanline(j_decompress_ptr cinfo, JDIMENSION *xoffset,
                                 (long)align) - 1;
   }
 
+  /* The merged upsampler is a different (smaller) object that does not depend
+   * on downsampled_width, so it must not be reinitialized as a separate
+   * upsampler.
+   */
+#ifdef UPSAMPLE_MERGING_SUPPORTED
+  if (master->using_merged_upsample)
+    reinit_upsampler = FALSE;
+#endif
   if (reinit_upsampler) {
     cinfo->master->jinit_upsampler_no_alloc = TRUE;
     _jinit_upsampler(cinfo);
